@@ -55,3 +55,20 @@ func VerifC13_Retain() {
 	}
 	vnd.Assert(vnd.HeldLocks() == 0, "C13.retain.locks-released")
 }
+
+// VerifC17_RefreshVsLookup: a validator-set refresh overlapping a lookup has
+// no unsynchronised conflicting accesses.
+func VerifC17_RefreshVsLookup() {
+	key := phase0.BLSPubKey{1}
+	rec := &phase0.Validator{PublicKey: key}
+	p := &c13Provider{mode: vnd.Choose("refresh.outcome", 3), data: map[phase0.ValidatorIndex]*apiv1.Validator{7: {Index: 7, Validator: rec}}}
+	s := &Service{clientMonitor: vstub.ClientMonitor{}, validatorsProvider: p,
+		validatorsByIndex:      map[phase0.ValidatorIndex]*phase0.Validator{5: rec},
+		validatorsByPubKey:     map[phase0.BLSPubKey]*phase0.Validator{key: rec},
+		validatorPubKeyToIndex: map[phase0.BLSPubKey]phase0.ValidatorIndex{key: 5}}
+	go func() { _ = s.RefreshValidatorsFromBeaconNode(context.Background(), []phase0.BLSPubKey{key}) }()
+	go func() { _ = s.ValidatorsByPubKey(context.Background(), []phase0.BLSPubKey{key}) }()
+	left := vnd.Quiesce()
+	vnd.Assert(left == 0, "C17.validators.everything-returns")
+	vnd.Cover("C17.validators.overlap-explored")
+}
